@@ -97,9 +97,42 @@ def run(ctx: Ctx):
            f"_concat_soft_attention is called with {got}", rel, calls[0].lineno, sample=got)
     uq = [c for c in own_calls(csa.node) if isinstance(c.func, ast.Attribute) and c.func.attr == "unsqueeze" and u(c.func.value) == "query"]
     dims["_concat_soft_attention"] = ("self.dim" if len(uq) == 1 and u(uq[0].args[0]) == "dim" and got.get("dim") == "self.dim" else None)
-    col.ob("G13", "S2", f"{rel}::attention::one-sequence-dimension", set(dims.values()) == {"self.dim"},
-           f"the sequence dimension is used as {dims}; softmax, the weighted sum and every score function must all use "
-           f"self.dim", rel, fwd.line, sample=dims)
+    # the dimension symbol must denote the same AXIS at every use. `self.dim` is specified relative to the key's
+    # rank R (check_input admits negative values); a negative index means axis R + dim only on a tensor of rank R.
+    # Relative ranks: key/value 0, query -1, query.unsqueeze(dim) 0 (the index is relative to the RESULT's rank),
+    # scores e -1 (feature axis reduced), weights*value 0.
+    sm_dim = sm.args[1] if len(sm.args) > 1 else kwarg(sm, "dim")
+    sites = {"softmax(e, .)": (-1, sm_dim), "sum(.)": (0, ret.value.args[0] if shape_ok and ret.value.args else None)}
+
+    def adjusted_for_negative(e, shift):
+        """Does expression e denote self.dim on a tensor whose rank is R + shift? shift 0: plain `self.dim`;
+        shift -1: `self.dim if self.dim >= 0 else self.dim + 1` (or the reversed test)."""
+        if e is None:
+            return False
+        if isinstance(e, ast.Name):
+            ds = list(rd.defs_of(e))
+            if len(ds) == 1 and ds[0].value is not None:
+                e = ds[0].value
+        if shift == 0:
+            return u(e) == "self.dim"
+        if isinstance(e, ast.IfExp):
+            t, a_, b_ = u(e.test).replace(" ", ""), u(e.body).replace(" ", ""), u(e.orelse).replace(" ", "")
+            if t in ("self.dim>=0", "self.dim>-1", "0<=self.dim") and a_ == "self.dim" and b_ in ("self.dim+1", "1+self.dim"):
+                return True
+            if t in ("self.dim<0", "0>self.dim") and b_ == "self.dim" and a_ in ("self.dim+1", "1+self.dim"):
+                return True
+        return False
+
+    bad_sites = {k: u(e) if e is not None else None for k, (sh, e) in sites.items() if not adjusted_for_negative(e, sh)}
+    col.ob("G19", "S2", f"{rel}::GlobalSoftAttention.forward::dimension-denotes-one-axis", not bad_sites,
+           f"`self.dim` is relative to the key's rank R and may be negative (check_input admits [-R+1, R-2]); it is used "
+           f"unadjusted as {bad_sites} - the scores have rank R-1, so for a negative dim softmax normalises over a "
+           f"different axis than the one the weighted sum reduces (needs dim + 1 for negative dim)", rel, sm.lineno,
+           sample={k: (sh, u(e) if e is not None else None) for k, (sh, e) in sites.items()})
+    score_dims = {k: v for k, v in dims.items() if k not in ("softmax", "sum")}
+    col.ob("G13", "S2", f"{rel}::attention::score-functions-use-self.dim", set(score_dims.values()) == {"self.dim"},
+           f"score functions unsqueeze the query at {score_dims}; the index is relative to the result's rank R, so all "
+           f"must use self.dim", rel, fwd.line, sample=score_dims)
     cat = [c for c in own_calls(csa.node) if call_name(c) == "torch.cat"]
     col.ob("G13", "S2", f"{rel}::_concat_soft_attention::concat-(query,key)-on-features", len(cat) == 1 and u(cat[0].args[0]) == "[query, key]" and u(cat[0].args[1]) == "-1",
            "query and key are not concatenated in (query, key) order over the feature axis (the weight is laid out as "
@@ -156,13 +189,28 @@ def run(ctx: Ctx):
     col.ob("G1", "S4", f"{rel}::MultiHeadedAttention.forward::(query, key, value)-projected-and-split", roles == want,
            f"the single-head attention receives {roles}; expected (WQ(query), WK(key), WV(value)) each unflattened to "
            f"[num_heads, d_x] with its own d_x, in that order", rel, sha[0].lineno, sample=roles)
+    # where is the head axis in the per-head score tensor? The projections are unflattened at their last axis into
+    # [num_heads, d_x], so heads sit at axis -2 of the projected tensors; every score function reduces the last
+    # (feature) axis (S2), hence heads are the LAST axis of the scores and the mask - which has the scores' shape
+    # without heads (check_input broadcasts it against e_shape) - needs a trailing singleton: unsqueeze(-1)
+    unf_axes = {u(c.args[1]) for c in own_calls(mf.node) if call_name(c) == "unflatten" and len(c.args) == 3}
+    head_axis_in_scores = None
+    if unf_axes == {"-1"}:
+        head_axis_in_scores = -2 + 1
     m4 = sha[0].args[3] if len(sha[0].args) > 3 else None
     okmask = False
-    if isinstance(m4, ast.Name):
-        vals = [u(d.value) for d in rdm.defs_of(m4) if d.kind != "param"]
-        okmask = vals == ["mask.unsqueeze(-2)"]
-    col.ob("G13", "S4", f"{rel}::MultiHeadedAttention.forward::mask-broadcast-over-heads", okmask,
-           "the mask is not unsqueezed on the head axis (-2) before the per-head attention", rel, sha[0].lineno)
+    got_axis = None
+    if isinstance(m4, ast.Name) and head_axis_in_scores is not None:
+        vals = [d.value for d in rdm.defs_of(m4) if d.kind != "param"]
+        if len(vals) == 1 and isinstance(vals[0], ast.Call) and isinstance(vals[0].func, ast.Attribute) \
+                and vals[0].func.attr == "unsqueeze" and u(vals[0].func.value) == "mask":
+            got_axis = u(vals[0].args[0])
+            okmask = got_axis == str(head_axis_in_scores)
+    col.ob("G19", "S4", f"{rel}::MultiHeadedAttention.forward::mask-broadcast-over-heads", okmask,
+           f"the mask is unsqueezed at axis {got_axis} before the per-head attention, but the heads are the last axis "
+           f"({head_axis_in_scores}) of the per-head scores (projections unflattened at -1 into [heads, d]; scores reduce "
+           f"the feature axis): a mask of the documented shape fails to broadcast, or - when batch size equals the number "
+           f"of heads - masks the wrong cells", rel, sha[0].lineno, sample=dict(unsqueeze=got_axis, head_axis=head_axis_in_scores))
     ret = [st for st, _ in rdm.return_envs][-1]
     okmerge = isinstance(ret.value, ast.Call) and u(ret.value.func) == "self.WC" and isinstance(ret.value.args[0], ast.Name) and any(
         u(d.value).endswith(".flatten(-2)") for d in rdm.defs_of(ret.value.args[0]))
@@ -193,14 +241,14 @@ def _mutants():
         M("mask-fill-zero", A, "e = e.masked_fill(~mask, -float('inf'))", "e = e.masked_fill(~mask, 0.0)", "masked-scores-are--inf"),
         M("mask-after-softmax", A, "e = e.masked_fill(~mask, -float('inf'))\n        a = torch.nn.functional.softmax(e, self.dim)",
           "a = torch.nn.functional.softmax(e, self.dim)\n        if mask is not None:\n            a = a * mask", "G16/S1"),
-        M("softmax-dim-0", A, "a = torch.nn.functional.softmax(e, self.dim)", "a = torch.nn.functional.softmax(e, 0)", "one-sequence-dimension"),
-        M("sum-dim-minus-1", A, "return (a.unsqueeze(-1) * value).sum(self.dim)", "return (a.unsqueeze(-1) * value).sum(-2)", "one-sequence-dimension"),
-        M("dot-unsqueeze-0", A, "query = query.unsqueeze(self.dim)\n        return (query * key).sum(-1) * self.scale_factor", "query = query.unsqueeze(0)\n        return (query * key).sum(-1) * self.scale_factor", "one-sequence-dimension"),
+        M("softmax-dim-unadjusted", A, "torch.nn.functional.softmax(e, self.dim if self.dim >= 0 else self.dim + 1)", "torch.nn.functional.softmax(e, self.dim)", "dimension-denotes-one-axis"),
+        M("sum-dim-minus-1", A, "return (a.unsqueeze(-1) * value).sum(self.dim)", "return (a.unsqueeze(-1) * value).sum(-2)", "dimension-denotes-one-axis"),
+        M("dot-unsqueeze-0", A, "query = query.unsqueeze(self.dim)\n        return (query * key).sum(-1) * self.scale_factor", "query = query.unsqueeze(0)\n        return (query * key).sum(-1) * self.scale_factor", "score-functions-use-self.dim"),
         M("bias-wk-from-wq", A, "self.WK = torch.nn.Linear(key_size, num_heads * self.d_k, bias=bias_WK)", "self.WK = torch.nn.Linear(key_size, num_heads * self.d_k, bias=bias_WQ)", "WK(bias=bias_WK)"),
         M("validate-sibling", A, "bias_WV = argcheck.is_bool(bias_WV, 'bias_WV')", "bias_WV = argcheck.is_bool(bias_WK, 'bias_WV')", "G3"),
         M("key-split-with-dq", A, "key_heads = unflatten(key_heads, -1, [self.num_heads, self.d_k])", "key_heads = unflatten(key_heads, -1, [self.num_heads, self.d_q])", "projected-and-split"),
         M("heads-kv-swapped", A, "self.single_head_attention(query_heads, key_heads, value_heads, mask)", "self.single_head_attention(query_heads, value_heads, key_heads, mask)", "projected-and-split"),
-        M("mask-unsqueeze-last", A, "mask = mask.unsqueeze(-2)", "mask = mask.unsqueeze(-1)", "mask-broadcast-over-heads"),
+        M("mask-unsqueeze-minus-2", A, "mask = mask.unsqueeze(-1)", "mask = mask.unsqueeze(-2)", "mask-broadcast-over-heads"),
         M("concat-order", A, "cat = torch.cat([query, key], -1)", "cat = torch.cat([key, query], -1)", "concat-(query,key)"),
         M("concat-binding", A, "query, key, self.weight, self.bias, self.v, self.dim", "query, key, self.weight, self.v, self.bias, self.dim", "G1"),
         M("wv-out-size", A, "self.WV = torch.nn.Linear(value_size, num_heads * d_v, bias=bias_WV)", "self.WV = torch.nn.Linear(value_size, d_v, bias=bias_WV)", "WV(in=value_size"),
